@@ -1,6 +1,8 @@
 import AFModel.Fitness
 import AFProofs.C03
 import AFModel.FloatOps
+import AFModel.SearchTable
+import AFModel.Generated.C04
 
 /-!
 # C04 — the figure of merit handed to a search
@@ -157,5 +159,186 @@ theorem fom_with_model_gate {V : Type} [Inhabited V] (ops : Ops V) (fo : FomOps 
     have hf : limitsOk ops lims v = false := by simpa using hlim
     have hg : gate ops t lims asserts v false = .error .priorLimit := C03.gate_limit_error ops t lims asserts v hl hf
     simp [fitnessCall, hg]
+
+end AF.C04
+
+
+/-! ## every search class: the figure of merit its own fitness object hands to it
+
+`Generated.C04.searchRows` is regenerated from `autofit/non_linear/search/**` before every build
+(`harness/tables_c04.py`); the driver answers "which flags does search X use" from the same table
+(`findRow`), and the harness compares the table with the source and with the fitness objects real
+searches build. The `row_*` theorems hold for *any* row, the `table_*` theorems instantiate them
+over the rows of the present source tree and add what only a concrete table can say: that every
+search's resample value is the designated one. -/
+
+namespace AF.C04
+open AF
+
+/-- **Success, per row.** the instance is built and the likelihood is `ll`: a search of this row
+receives `ll`, plus the prior sum when it works in posterior space, times −2 when it minimises.
+(`FitnessPySwarms` re-checks the *result* for NaN: `hn`.) -/
+theorem row_fom_on_success (fo : FomOps Float) (r : SearchRow) (hist : Bool) (g) (lp) (st : FitSt Float)
+    (v : List Float) (i : Inst Float) (ll : Float) (hg : g v = .ok i)
+    (hn : r.fitnessClass = .pyswarms → fo.isNaN (fo.mulNeg2 (fo.add ll (pySum fo (lp v)))) = false) :
+    (rowCall fo r hist g lp st v (.fin ll)).1 = .value (rowFom fo r ll (pySum fo (lp v))) := by
+  unfold rowCall rowFom SearchRow.posterior SearchRow.minimises
+  cases hc : r.fitnessClass with
+  | plain =>
+    rw [fom_on_success fo (rowCfg r hist) g lp st v i ll hg]
+    cases h1 : r.fomIsLL <;> cases h2 : r.convertChi <;> simp [rowCfg, h1, h2]
+  | pyswarms =>
+    rw [pyswarms_particle_success fo (rowCfg r hist) g lp v i ll hg (hn hc)]
+    simp
+
+/-- **Resample, per row.** a vector outside limits / violating an assertion, the fit exception or
+NaN: the search receives `rowResample` (its resample value; `-2 ×` it for the swarm variant) and
+nothing is recorded. -/
+theorem row_resample_on_failure (fo : FomOps Float) (r : SearchRow) (hist : Bool) (g) (lp) (st : FitSt Float)
+    (v : List Float) (o : Outcome Float)
+    (h : (∃ e, g v = .error e ∧ e ≠ .length) ∨ (∃ i, g v = .ok i ∧ (o = .nan ∨ o = .raisesFit))) :
+    rowCall fo r hist g lp st v o = (.value (rowResample fo r), st) := by
+  unfold rowCall rowResample
+  cases r.fitnessClass with
+  | plain => rw [resample_on_failure fo (rowCfg r hist) g lp st v o h]; rfl
+  | pyswarms => rw [pyswarms_particle_failure fo (rowCfg r hist) g lp v o h]; rfl
+
+/-- the swarm variant lets exactly the same exceptions through as the plain one -/
+theorem pyswarms_raises_iff (fo : FomOps V) (cfg : FitCfg V) (g) (lp) (v : List V) (o : Outcome V) :
+    pyswarmsParticle fo cfg g lp v o = .raises ↔
+      (g v = .error .length ∨ ((∃ i, g v = .ok i) ∧ o = .raisesOther)) := by
+  unfold pyswarmsParticle
+  cases hg : g v with
+  | error e => cases e <;> simp
+  | ok i =>
+    cases o with
+    | fin ll => by_cases hn : fo.isNaN (fo.mulNeg2 (fo.add ll (pySum fo (lp v)))) = true <;> simp [hn]
+    | nan => simp
+    | raisesFit => simp
+    | raisesOther => simp
+
+/-- **No escape, per row.** -/
+theorem row_raises_iff (fo : FomOps Float) (r : SearchRow) (hist : Bool) (g) (lp) (st : FitSt Float)
+    (v : List Float) (o : Outcome Float) :
+    (∃ st', rowCall fo r hist g lp st v o = (.raises, st')) ↔
+      (g v = .error .length ∨ ((∃ i, g v = .ok i) ∧ o = .raisesOther)) := by
+  unfold rowCall
+  cases r.fitnessClass with
+  | plain => exact raises_iff fo (rowCfg r hist) g lp st v o
+  | pyswarms =>
+    rw [← pyswarms_raises_iff fo (rowCfg r hist) g lp v o]
+    constructor
+    · rintro ⟨st', h⟩; exact congrArg Prod.fst h
+    · intro h; exact ⟨st, by rw [h]⟩
+
+/-- a run of a plain row is a run of `Fitness` with the row's flags -/
+theorem rowRun_plain (fo : FomOps Float) (r : SearchRow) (hist : Bool) (g) (lp) (hc : r.fitnessClass = .plain) :
+    ∀ (calls : List (List Float × Outcome Float)) (st : FitSt Float),
+      rowRun fo r hist g lp st calls = runCalls fo (rowCfg r hist) g lp st calls
+  | [], st => by simp [rowRun, runCalls]
+  | (v, o) :: rest, st => by
+    simp only [rowRun, runCalls, rowCall, hc]
+    rw [rowRun_plain fo r hist g lp hc rest]
+
+/-- the swarm variant never touches the history lists -/
+theorem rowRun_pyswarms_state (fo : FomOps Float) (r : SearchRow) (hist : Bool) (g) (lp) (hc : r.fitnessClass = .pyswarms) :
+    ∀ (calls : List (List Float × Outcome Float)) (st : FitSt Float), (rowRun fo r hist g lp st calls).2 = st
+  | [], st => by simp [rowRun]
+  | (v, o) :: rest, st => by
+    simp only [rowRun, rowCall, hc]
+    exact rowRun_pyswarms_state fo r hist g lp hc rest st
+
+/-- **History, per row**, for any interleaving of successful and failing calls: a plain fitness
+object whose `store_history` is on (a literal `True`, or a dynamic argument that evaluated to true)
+holds exactly the successfully evaluated vectors with their likelihoods, in order; every other
+fitness object holds nothing. -/
+theorem row_history_exact (fo : FomOps Float) (r : SearchRow) (hist : Bool) (g) (lp)
+    (calls : List (List Float × Outcome Float)) :
+    (rowRun fo r hist g lp {} calls).2.params =
+        (if r.fitnessClass = .plain ∧ r.storeHistory hist = true then (calls.filter (succeeded g)).map (·.1) else []) ∧
+    (rowRun fo r hist g lp {} calls).2.lls =
+        (if r.fitnessClass = .plain ∧ r.storeHistory hist = true then (calls.filter (succeeded g)).map llOf else []) := by
+  cases hc : r.fitnessClass with
+  | plain =>
+    rw [rowRun_plain fo r hist g lp hc]
+    have h := history_exact fo (rowCfg r hist) g lp calls {}
+    rw [h.1, h.2]
+    cases hs : r.storeHistory hist <;> simp [rowCfg, hs]
+  | pyswarms =>
+    rw [rowRun_pyswarms_state fo r hist g lp hc]
+    simp
+
+/-- the driver's lookup answers with a row of the table that carries the asked name -/
+theorem findRow_mem (rows : List SearchRow) (name : String) (r : SearchRow) (h : findRow rows name = some r) :
+    r ∈ rows ∧ r.name = name := by
+  unfold findRow at h
+  exact ⟨List.mem_of_find?_eq_some h, by simpa using List.find?_some h⟩
+
+/-- **Designated resample value, every search class of the source tree.** What a search receives
+for a vector that cannot be evaluated is `≥ 1e99` when it minimises and `≤ -1e99` when it maximises
+(so never better than an evaluated vector), nested samplers work in likelihood space, MCMC and
+maximum-likelihood searches in posterior space, and the flags given to the swarm variant say what it
+does. Checked by evaluation of the regenerated table: a search whose flags change changes this
+obligation. -/
+theorem table_designated : ∀ r ∈ Generated.C04.searchRows, rowDesignated floatFom r = true := by
+  decide +kernel
+
+/-- the defaults of `Fitness.__init__` are themselves a designated combination (likelihood space,
+maximised, `-inf` on failure) -/
+theorem table_defaults_designated : rowDesignated floatFom Generated.C04.defaultRow = true := by
+  decide +kernel
+
+/-- **The property's sentence for every search class of the source tree.** -/
+theorem table_contract (r : SearchRow) (hr : r ∈ Generated.C04.searchRows) (hist : Bool) (g) (lp)
+    (st : FitSt Float) (v : List Float) (o : Outcome Float) :
+    (∀ i ll, g v = .ok i → o = .fin ll →
+        (r.fitnessClass = .pyswarms → floatFom.isNaN (floatFom.mulNeg2 (floatFom.add ll (pySum floatFom (lp v)))) = false) →
+        (rowCall floatFom r hist g lp st v o).1 = .value (rowFom floatFom r ll (pySum floatFom (lp v)))) ∧
+    (((∃ e, g v = .error e ∧ e ≠ .length) ∨ (∃ i, g v = .ok i ∧ (o = .nan ∨ o = .raisesFit))) →
+        rowCall floatFom r hist g lp st v o = (.value (rowResample floatFom r), st)) ∧
+    rowResampleWorst floatFom r = true := by
+  refine ⟨?_, ?_, ?_⟩
+  · intro i ll hg ho hn
+    subst ho
+    exact row_fom_on_success floatFom r hist g lp st v i ll hg hn
+  · exact row_resample_on_failure floatFom r hist g lp st v o
+  · have h := table_designated r hr
+    simp only [rowDesignated, Bool.and_eq_true] at h
+    exact h.1.1
+
+/-! ### non-vacuity -/
+
+example : Generated.C04.searchRows.length > 0 := by decide
+
+/-- seeded change C04-m10: the swarm search given `+inf`, which its fitness class multiplies by −2 -/
+def swarmPlusInfRow : SearchRow :=
+  { name := "PySwarmsGlobal", family := .mle, owner := "AbstractPySwarms", fitnessClass := .pyswarms,
+    fomIsLL := false, convertChi := true, history := .off,
+    resampleBits := 0x7ff0000000000000, passesPaths := false }
+/-- an MCMC search switched to likelihood space -/
+def mcmcLikelihoodRow : SearchRow :=
+  { name := "Emcee", family := .mcmc, owner := "Emcee", fitnessClass := .plain,
+    fomIsLL := true, convertChi := false, history := .off,
+    resampleBits := 0xfff0000000000000, passesPaths := true }
+def lbfgsRow : SearchRow :=
+  { name := "LBFGS", family := .mle, owner := "AbstractBFGS", fitnessClass := .plain,
+    fomIsLL := false, convertChi := true, history := .dynamic,
+    resampleBits := 0x7ff0000000000000, passesPaths := true }
+def gLen1 : List Float → Except GateErr (Inst Float) :=
+  fun v => if v.length = 1 then .ok (.tup []) else .error .priorLimit
+
+example : rowDesignated floatFom swarmPlusInfRow = false := by decide +kernel
+example : rowDesignated floatFom mcmcLikelihoodRow = false := by decide +kernel
+/-- a minimiser of `-2 × posterior` with a dynamic history argument that is on: the history keeps the
+one successful call of three, the value is `-2 × (2 + 1.5)` -/
+example :
+    (rowRun floatFom lbfgsRow true gLen1 (fun _ => [1.5]) {}
+      [([0.5], .fin 2.0), ([0.5, 0.5], .fin 1.0), ([0.25], .nan)]).2.lls.map Float.toBits = [(2.0 : Float).toBits] := by
+  decide +kernel
+example :
+    (match (rowCall floatFom lbfgsRow true gLen1 (fun _ => [1.5]) {} [0.5] (.fin 2.0)).1 with
+      | .value x => x.toBits == (-7.0 : Float).toBits
+      | .raises => false) = true := by
+  decide +kernel
 
 end AF.C04
